@@ -14,7 +14,7 @@ txt = ["### 7.4 Seeded changes: which checks catch which changes",
        "Fresh sub-agents were given only the text of one property and a scratch worktree of `/repo`",
        "(nothing from `/verif`) and asked for changes that break the property, still compile and pass the",
        "pinned suite, and need something specific to manifest; from the second round on they were also",
-       "told which ideas had been used before (ten rounds, two changes per property and round). Every change below was confirmed with `tools/seed_eval.sh`",
+       "told which ideas had been used before (eleven rounds, two changes per property and round). Every change below was confirmed with `tools/seed_eval.sh`",
        "in a scratch worktree (patch applies, 140/140 baseline tests pass with it, its demonstration fails",
        "with and passes without it) before it was kept under `/verif/seeded/<name>/` (patch.diff, the",
        "demonstration renamed to `*.go.txt`, README.md, meta.json). The checks were run against each",
@@ -57,6 +57,7 @@ txt += ["",
         "Round 10: two pairs were the same change seeded for two properties (undefined AVPs with the M bit refused: C01 / C17;",
         "error answers decoded in the base application: C01 / C04), each kept once; not counted: the truncated-body report again",
         "(C05) and a change that reorders the definitions of ONE document (C17: the statement orders loads, not the elements of a load).",
+        "Round 11: not counted - a local Close that closes the CloseNotify channel a moment before the transport (C14).",
         "",
         "Not counted as violations, because the property does not decide the point (the checks stay",
         "silent on them, by design): a client that treats every 2xxx Result-Code in the CEA as success (C12",
@@ -76,7 +77,7 @@ txt += ["",
         "truncated headers, i.e. demand more than the property states.",
         "",
         "Seeds whose sub-agent was given another property than the one its change breaks are filed under",
-        "the property whose clause is broken or whose check sees them (`C06-E`, `C07-E`, `C16-G`, and several of rounds 5 to 10: the 'needs' column says so); the check of the property they",
+        "the property whose clause is broken or whose check sees them (`C06-E`, `C07-E`, `C16-G`, and several of rounds 5 to 11: the 'needs' column says so); the check of the property they",
         "were written for does not, and need not, see them.",
         ""]
 block = "\n".join(txt)
